@@ -348,3 +348,79 @@
 ;@lemma tcount_bounds
 (assert (forall ((L (Array Int Int)) (lo Int) (M (Array Int Int)) (mo Int) (n Int))
   (! (and (>= (tcount L lo M mo n) 0) (<= (tcount L lo M mo n) (ite (<= n 0) 0 n))) :pattern ((tcount L lo M mo n)))))
+; ---------------------------------------------------------------- run-time truth under Solver.model (signed decision levels)
+; literal l is false / true under the model value m of its variable (0 = unbound, > 0 = true, < 0 = false)
+;@sig sfalse : int int -> bool
+(define-fun sfalse ((m Int) (l Int)) Bool (and (not (= m 0)) (not (= (> m 0) (= (mod l 2) 0)))))
+;@sig strue : int int -> bool
+(define-fun strue ((m Int) (l Int)) Bool (and (not (= m 0)) (= (> m 0) (= (mod l 2) 0))))
+; assignment A is compatible with what the model row M says about literal l (l >= 0)
+(define-fun lagree ((M (Array Int Int)) (mo Int) (A (Array Int Bool)) (l Int)) Bool
+  (and (>= l 0) (=> (strue (select M (+ mo (div l 2))) l) (tv A l)) (=> (sfalse (select M (+ mo (div l 2))) l) (not (tv A l)))))
+; nfsum(L, W, M, n) = sum over k < n of wt(W,k) * [L[k] is not false under M]   (the "slack" numerator)
+;@sig nfsum : row rowz row int -> int
+(declare-fun nfsum ((Array Int Int) Int (Array Int Int) Int Bool (Array Int Int) Int Int) Int)
+(assert (forall ((L (Array Int Int)) (lo Int) (W (Array Int Int)) (wo Int) (wn Bool) (M (Array Int Int)) (mo Int) (n Int))
+  (! (= (nfsum L lo W wo wn M mo n)
+        (ite (<= n 0) 0 (+ (nfsum L lo W wo wn M mo (- n 1))
+             (ite (sfalse (select M (+ mo (div (select L (+ lo (- n 1))) 2))) (select L (+ lo (- n 1)))) 0 (ite wn 1 (select W (+ wo (- n 1))))))))
+     :pattern ((nfsum L lo W wo wn M mo n)))))
+; tsum(L, W, M, n) = sum over k < n of wt(W,k) * [L[k] is true under M]
+;@sig tsum : row rowz row int -> int
+(declare-fun tsum ((Array Int Int) Int (Array Int Int) Int Bool (Array Int Int) Int Int) Int)
+(assert (forall ((L (Array Int Int)) (lo Int) (W (Array Int Int)) (wo Int) (wn Bool) (M (Array Int Int)) (mo Int) (n Int))
+  (! (= (tsum L lo W wo wn M mo n)
+        (ite (<= n 0) 0 (+ (tsum L lo W wo wn M mo (- n 1))
+             (ite (strue (select M (+ mo (div (select L (+ lo (- n 1))) 2))) (select L (+ lo (- n 1)))) (ite wn 1 (select W (+ wo (- n 1)))) 0))))
+     :pattern ((tsum L lo W wo wn M mo n)))))
+; for every assignment compatible with the model: true weight <= weight under A <= non-false weight
+;@sig lem_psum_nf : row rowz asg row int -> bool
+(declare-fun lem_psum_nf ((Array Int Int) Int (Array Int Int) Int Bool (Array Int Bool) (Array Int Int) Int Int) Bool)
+;@lemma psum_nf
+(assert (forall ((L (Array Int Int)) (lo Int) (W (Array Int Int)) (wo Int) (wn Bool) (A (Array Int Bool)) (M (Array Int Int)) (mo Int) (n Int))
+  (! (and (lem_psum_nf L lo W wo wn A M mo n)
+      (=> (and (or wn (forall ((j Int)) (! (=> (and (<= wo j) (< j (+ wo n))) (>= (select W j) 0)) :pattern ((select W j)))))
+               (forall ((j Int)) (! (=> (and (<= lo j) (< j (+ lo n))) (lagree M mo A (select L j))) :pattern ((select L j)))))
+          (and (<= (tsum L lo W wo wn M mo n) (psum L lo W wo wn A n)) (<= (psum L lo W wo wn A n) (nfsum L lo W wo wn M mo n)))))
+     :pattern ((lem_psum_nf L lo W wo wn A M mo n)))))
+; ... and if A makes literal i false, the weight of literal i (unless already false under M) is lost as well
+;@sig lem_psum_nfu : row rowz asg row int int -> bool
+(declare-fun lem_psum_nfu ((Array Int Int) Int (Array Int Int) Int Bool (Array Int Bool) (Array Int Int) Int Int Int) Bool)
+;@lemma psum_nfu
+(assert (forall ((L (Array Int Int)) (lo Int) (W (Array Int Int)) (wo Int) (wn Bool) (A (Array Int Bool)) (M (Array Int Int)) (mo Int) (n Int) (i Int))
+  (! (and (lem_psum_nfu L lo W wo wn A M mo n i)
+      (=> (and (or wn (forall ((j Int)) (! (=> (and (<= wo j) (< j (+ wo n))) (>= (select W j) 0)) :pattern ((select W j)))))
+               (forall ((j Int)) (! (=> (and (<= lo j) (< j (+ lo n))) (lagree M mo A (select L j))) :pattern ((select L j))))
+               (<= 0 i) (< i n) (not (tv A (select L (+ lo i)))))
+          (<= (psum L lo W wo wn A n)
+              (- (nfsum L lo W wo wn M mo n)
+                 (ite (sfalse (select M (+ mo (div (select L (+ lo i)) 2))) (select L (+ lo i))) 0 (ite wn 1 (select W (+ wo i))))))))
+     :pattern ((lem_psum_nfu L lo W wo wn A M mo n i)))))
+; the true weight of a prefix is at most the true weight of a longer prefix (non-negative weights)
+;@lemma tsum_mono
+(assert (forall ((L (Array Int Int)) (lo Int) (W (Array Int Int)) (wo Int) (wn Bool) (M (Array Int Int)) (mo Int) (m Int) (n Int))
+  (! (=> (and (or wn (forall ((j Int)) (! (=> (and (<= wo j) (< j (+ wo n))) (>= (select W j) 0)) :pattern ((select W j)))))
+              (<= 0 m) (<= m n))
+         (<= (tsum L lo W wo wn M mo m) (tsum L lo W wo wn M mo n)))
+     :pattern ((tsum L lo W wo wn M mo m) (tsum L lo W wo wn M mo n)))))
+; if the weight under A reaches the non-false weight minus s, every non-false literal heavier than s is true under A
+;@sig lem_psum_tight : row rowz asg row int int -> bool
+(declare-fun lem_psum_tight ((Array Int Int) Int (Array Int Int) Int Bool (Array Int Bool) (Array Int Int) Int Int Int) Bool)
+;@lemma psum_tight
+(assert (forall ((L (Array Int Int)) (lo Int) (W (Array Int Int)) (wo Int) (wn Bool) (A (Array Int Bool)) (M (Array Int Int)) (mo Int) (n Int) (s Int))
+  (! (and (lem_psum_tight L lo W wo wn A M mo n s)
+      (=> (and (or wn (forall ((j Int)) (! (=> (and (<= wo j) (< j (+ wo n))) (>= (select W j) 0)) :pattern ((select W j)))))
+               (forall ((j Int)) (! (=> (and (<= lo j) (< j (+ lo n))) (lagree M mo A (select L j))) :pattern ((select L j))))
+               (>= (psum L lo W wo wn A n) (- (nfsum L lo W wo wn M mo n) s)))
+          (forall ((j Int)) (! (=> (and (<= lo j) (< j (+ lo n))
+                                        (not (sfalse (select M (+ mo (div (select L j) 2))) (select L j)))
+                                        (> (ite wn 1 (select W (+ wo (- j lo)))) s))
+                                   (tv A (select L j)))
+                               :pattern ((select L j))))))
+     :pattern ((lem_psum_tight L lo W wo wn A M mo n s)))))
+; with unit weights the non-false count grows by at most one per position
+;@lemma nfsum_ub
+(assert (forall ((L (Array Int Int)) (lo Int) (W (Array Int Int)) (wo Int) (M (Array Int Int)) (mo Int) (m Int) (n Int))
+  (! (=> (and (<= 0 m) (<= m n))
+         (<= (nfsum L lo W wo true M mo n) (+ (nfsum L lo W wo true M mo m) (- n m))))
+     :pattern ((nfsum L lo W wo true M mo m) (nfsum L lo W wo true M mo n)))))
